@@ -17,7 +17,9 @@ WORD_LEN = 4
 
 def oracle_req(case, reply):
     w = case.split()
-    if w[0] != "augment" or len(w) != 4:
+    if w[0] == "augment-attr" and len(w) == 5:
+        w = w[:4]            # decorated occurrences: the same oracle as for the plain grammar
+    elif w[0] != "augment" or len(w) != 4:
         return None          # `augname` cases: differential tie only
     r = reply.split()
     if len(r) != 4:
